@@ -79,6 +79,18 @@ func DrawStructural(rt *rapid.T, o StructOpt) *Subject {
 		seen[k] = true
 		types = append(types, t)
 	}
+	if len(env.ExtStructs) > 0 && rapid.Bool().Draw(rt, "extptr-shapes") {
+		// an imported struct behind a pointer, as argument, element and map value (the path on which generated code
+		// has to reach unexported fields through a pointer it did not allocate)
+		x := progen.NamedT(env.ExtStructs[rapid.IntRange(0, len(env.ExtStructs)-1).Draw(rt, "extptr-struct")])
+		for _, t := range []*progen.Type{progen.PtrTo(x), progen.SliceOf(progen.PtrTo(x)), progen.MapOf(progen.B("string"), progen.PtrTo(x))} {
+			k := progen.AssignKey(t)
+			if !seen[k] && (o.TypeOK == nil || o.TypeOK(t)) {
+				seen[k] = true
+				types = append(types, t)
+			}
+		}
+	}
 	if o.Carriers && len(types) >= 3 {
 		k := rapid.IntRange(0, len(types)-3).Draw(rt, "carrier-start")
 		for j := 0; j < 2 && k+3*j+3 <= len(types); j++ {
